@@ -42,6 +42,12 @@ def c04Step (_ : Unit) (line : String) : Unit × String :=
       match parseNat n, parseBytes v with
       | some n, some v => showDec (decodeMax n v)
       | _, _ => "bad-op"
+    | ["race", k, trials, seed] =>
+      -- concurrent first use of the decode tree: the sequential function is what is modelled; the
+      -- expected result of every decode(encode s) is s, i.e. "ok"
+      match parseNat k, parseNat trials, parseNat seed with
+      | some k, some t, some _ => if k < 1 ∨ k > 64 ∨ t < 1 ∨ t > 100000 then "bad-op" else "ok"
+      | _, _, _ => "bad-op"
     | _ => "bad-op"
   ((), out)
 
